@@ -325,10 +325,20 @@ func runWheelScenario(sc *Scenario) *RunData {
 
 // ---------------- store family ----------------
 
+// genC04Store: SetWithTTL through the public API, one writer per key.
+//
+//	store-ttl      every write carries a TTL (all wheel levels)
+//	store-ttl-seq  TTL changes on a live entry: none -> TTL, shorter, longer, TTL-less
+//	               overwrite (inherits the deadline), Delete and re-create
+//	store-busy     the same while churn clients keep the maintenance task busy:
+//	               every removal notification stalls inside the listener (which
+//	               runs under the policy mutex), with gaps in which a ticker that
+//	               waits for the mutex gets it
 func genC04Store(g *gen, tier string) *Scenario {
-	sc := &Scenario{Family: "store-ttl", Sim: g.sim(), Params: map[string]int64{}}
+	fam := pick(g, "store-ttl", "store-ttl-seq", "store-ttl-seq", "store-busy")
+	sc := &Scenario{Family: fam, Sim: g.sim(), Params: map[string]int64{}}
 	sc.Cache = g.cache(pick(g, "plain", "plain", "loading"))
-	sc.Cache.MaxSize = int64(pick(g, 8, 16, 64))
+	sc.Cache.MaxSize = int64(pick(g, 16, 64)) // never full: at most 9 TTL keys + 3 churn keys
 	sc.Cache.WriteChan = pick(g, 2, 8, 64)
 	sc.Cache.WriteBuf = pick(g, 4, 16, 128)
 	// fault-free with modest drift: the end-to-end lateness figure applies
@@ -337,6 +347,12 @@ func genC04Store(g *gen, tier string) *Scenario {
 	ttls := []int64{1200 * ms, 1500 * ms, 3 * sec, 10 * sec, 30 * sec, 65 * sec, 70 * sec, 100 * sec, 140 * sec}
 	if tier == "thorough" {
 		ttls = append(ttls, 600*sec, 4400*sec, 4700*sec, 9000*sec)
+	}
+	nshort := 5
+	if fam == "store-busy" {
+		ttls = ttls[:4]
+		nshort = 4
+		sc.Sim.Drift = 0
 	}
 	nc := g.rng(1, 3)
 	var maxEnd int64
@@ -347,21 +363,64 @@ func genC04Store(g *gen, tier string) *Scenario {
 			key := c*10 + g.n(3)
 			ttl := ttls[g.n(len(ttls))]
 			if g.pct(60) {
-				ttl = ttls[g.n(5)]
+				ttl = ttls[g.n(nshort)]
 			}
-			ops = append(ops, Op{Kind: "set", Key: key, Cost: 1, TTL: ttl})
-			if t+ttl > maxEnd {
-				maxEnd = t + ttl
+			op := Op{Kind: "set", Key: key, Cost: 1, TTL: ttl}
+			if fam != "store-ttl" {
+				switch x := g.n(100); {
+				case x < 30:
+					op.TTL = 0
+				case x < 40:
+					op = Op{Kind: "del", Key: key}
+				}
+			}
+			ops = append(ops, op)
+			if t+op.TTL > maxEnd {
+				maxEnd = t + op.TTL
 			}
 			d := int64(g.rng(1, 4000)) * ms
+			if fam != "store-ttl" && g.pct(25) {
+				d = int64(g.rng(0, 3)) * ms // the next write lands before the previous event is applied
+			}
 			ops = append(ops, Op{Kind: "sleep", Dur: d})
 			t += d
 		}
 		sc.Clients = append(sc.Clients, ops)
 	}
+	if fam == "store-busy" {
+		stall := int64(g.rng(100, 600)) * ms
+		sc.Stubs.ListenerSlowPct = 100
+		sc.Stubs.ListenerSlowDur = stall
+		locked := g.pct(50) // churn period locked to the tick period: the same phase at every tick
+		for c := g.rng(1, 2); c > 0; c-- {
+			var ops []Op
+			key := 100 + c
+			if g.pct(50) {
+				ops = append(ops, Op{Kind: "sleep", Dur: int64(g.rng(0, 999)) * ms})
+			}
+			for n := int((maxEnd+8*sec)/sec) + g.rng(0, 4); n > 0; n-- {
+				gap := int64(g.rng(50, 900)) * ms
+				if locked {
+					gap = sec - stall
+				}
+				ops = append(ops, Op{Kind: "set", Key: key, Cost: 1}, Op{Kind: "del", Key: key}, Op{Kind: "sleep", Dur: gap})
+			}
+			sc.Clients = append(sc.Clients, ops)
+		}
+	}
 	sc.Params["end"] = maxEnd
 	sc.Epilogue = []Op{{Kind: "sleep", Dur: maxEnd + 5*sec}, {Kind: "waitidle"}, {Kind: "wait"}, {Kind: "waitidle"}, {Kind: "snap", Label: "final"}}
 	return sc
+}
+
+// c04val: what the property says about one stored value.
+type c04val struct {
+	r        Rec
+	lo, hi   int64 // deadline within [lo, hi]; hasDL false: no deadline
+	hasDL    bool
+	unknown  bool  // deadline not decidable from the history (TTL-less overwrite racing the old deadline)
+	nextInvT int64 // invocation time of the next write / delete of the key (-1: none)
+	nextRetT int64
 }
 
 func checkC04(rd *RunData) []Violation {
@@ -369,51 +428,144 @@ func checkC04(rd *RunData) []Violation {
 		return nil
 	}
 	var vs []Violation
-	// single-writer keys, every write carries a TTL: the deadline of value v is
-	// within [inv+ttl, ret+ttl] of the Set that wrote it
-	type wr struct {
-		r    Rec
-		last bool
+	// one writer per key, so the writes of a key are totally ordered. Deadline of a value:
+	// SetWithTTL: within [inv+ttl, ret+ttl]; TTL-less Set on a live entry keeps that entry's
+	// deadline, on an absent / expired one there is none.
+	vals := map[int64]*c04val{}
+	var order []*c04val
+	type kstate struct {
+		cur *c04val // nil: absent
 	}
-	writes := map[int64]*wr{}
-	lastByKey := map[int]int64{}
+	keys := map[int]*kstate{}
 	for _, r := range sortedRecs(rd.Recs) {
-		if r.Op.Kind == "set" && r.Ok {
-			writes[r.Val] = &wr{r: r}
-			lastByKey[r.Op.Key] = r.Val
+		if r.Op.Key >= 100 || (r.Op.Kind != "set" && r.Op.Kind != "del") {
+			continue
 		}
+		ks := keys[r.Op.Key]
+		if ks == nil {
+			ks = &kstate{}
+			keys[r.Op.Key] = ks
+		}
+		if ks.cur != nil {
+			ks.cur.nextInvT, ks.cur.nextRetT = r.InvT, r.RetT
+		}
+		if r.Op.Kind == "del" {
+			ks.cur = nil
+			continue
+		}
+		if !r.Ok {
+			continue
+		}
+		v := &c04val{r: r, nextInvT: -1, nextRetT: -1}
+		switch prev := ks.cur; {
+		case r.Op.TTL > 0:
+			v.hasDL, v.lo, v.hi = true, r.InvT+r.Op.TTL, r.RetT+r.Op.TTL
+		case prev == nil || !prev.hasDL && !prev.unknown:
+			// fresh entry, or overwrite of a value without deadline: none
+		case prev.unknown:
+			v.unknown = true
+		case r.RetT < prev.lo:
+			v.hasDL, v.lo, v.hi = true, prev.lo, prev.hi // inherited
+			probe("c04.store-deadline-inherited")
+		case r.InvT > prev.hi+2500*ms:
+			// the old value was due for reclaim long ago: fresh, or stale deadline dropped
+		default:
+			v.unknown = true
+		}
+		if ks.cur != nil && !ks.cur.hasDL && v.hasDL && r.Op.TTL > 0 {
+			probe("c04.store-ttl-added-to-live-entry")
+		}
+		if ks.cur != nil && ks.cur.hasDL && r.Op.TTL > 0 && r.RetT < ks.cur.lo {
+			if v.lo > ks.cur.hi {
+				probe("c04.store-ttl-extended")
+			} else if v.hi < ks.cur.lo {
+				probe("c04.store-ttl-shortened")
+			}
+		}
+		vals[r.Val] = v
+		order = append(order, v)
+		ks.cur = v
 	}
-	for _, v := range lastByKey {
-		writes[v].last = true
+	// time the maintenance side was stalled inside the listener within [from, to]: a ticker
+	// that waits for the policy mutex is late by at most that much
+	stalled := func(from, to int64) int64 {
+		var sum int64
+		for _, l := range rd.Listener {
+			if l.Slow == 0 {
+				continue
+			}
+			a, b := l.T, l.T+l.Slow
+			if a < from {
+				a = from
+			}
+			if b > to {
+				b = to
+			}
+			if b > a {
+				sum += b - a
+			}
+		}
+		return sum
+	}
+	busy := ""
+	if rd.Sc.Family == "store-busy" {
+		busy = ",busy"
 	}
 	noted := map[int64]LRec{}
 	for _, l := range rd.Listener {
-		w := writes[l.Val]
-		if w == nil {
+		v := vals[l.Val]
+		if v == nil {
 			continue
 		}
 		if _, dup := noted[l.Val]; !dup {
 			noted[l.Val] = l
 		}
-		if l.Reason == 2 {
-			lv := levelOfTTL(w.r.Op.TTL)
-			probe("c04.store-expired")
-			if l.T < w.r.InvT+w.r.Op.TTL {
-				vs = append(vs, Violation{fmt.Sprintf("C04/early/store,level=%d", lv), fmt.Sprintf("key %d value %d set at t=[%s,%s] with ttl %s was reported EXPIRED at t=%s, before its deadline", l.Key, l.Val, durStr(w.r.InvT), durStr(w.r.RetT), durStr(w.r.Op.TTL), durStr(l.T))})
-			}
-			if w.last && l.T > w.r.RetT+w.r.Op.TTL+2500*ms {
-				vs = append(vs, Violation{fmt.Sprintf("C04/late/store,level=%d", lv), fmt.Sprintf("key %d value %d set at t=[%s,%s] with ttl %s (deadline <= %s) was reported EXPIRED only at t=%s, %.3fs after its deadline (fault-free run, ticks every second)", l.Key, l.Val, durStr(w.r.InvT), durStr(w.r.RetT), durStr(w.r.Op.TTL), durStr(w.r.RetT+w.r.Op.TTL), durStr(l.T), float64(l.T-w.r.RetT-w.r.Op.TTL)/1e9)})
-			}
-		}
-	}
-	// every last value must have left by the end of the run (which lasts 5 s beyond the last deadline)
-	for _, w := range writes {
-		if !w.last {
+		if l.Reason != 2 || v.unknown {
 			continue
 		}
-		if _, ok := noted[w.r.Val]; !ok {
-			lv := levelOfTTL(w.r.Op.TTL)
-			vs = append(vs, Violation{fmt.Sprintf("C04/late/store-never,level=%d", lv), fmt.Sprintf("key %d value %d set with ttl %s at t=%s was not reclaimed 5 s after the last deadline of the run", w.r.Op.Key, w.r.Val, durStr(w.r.Op.TTL), durStr(w.r.RetT))})
+		probe("c04.store-expired")
+		if !v.hasDL {
+			vs = append(vs, Violation{"C04/early/store,no-deadline" + busy, fmt.Sprintf("key %d value %d (%s at t=[%s,%s]) has no deadline but was reported EXPIRED at t=%s", l.Key, l.Val, v.r.Op, durStr(v.r.InvT), durStr(v.r.RetT), durStr(l.T))})
+			continue
+		}
+		lv := levelOfTTL(v.lo - v.r.InvT)
+		if l.T < v.lo {
+			vs = append(vs, Violation{fmt.Sprintf("C04/early/store,level=%d%s", lv, busy), fmt.Sprintf("key %d value %d (%s at t=[%s,%s], deadline >= %s) was reported EXPIRED at t=%s, before its deadline", l.Key, l.Val, v.r.Op, durStr(v.r.InvT), durStr(v.r.RetT), durStr(v.lo), durStr(l.T))})
+		}
+		allow := 2500*ms + stalled(v.lo, l.T)
+		if l.T > v.hi+allow {
+			vs = append(vs, Violation{fmt.Sprintf("C04/late/store,level=%d%s", lv, busy), fmt.Sprintf("key %d value %d (%s at t=[%s,%s], deadline <= %s) was reported EXPIRED only at t=%s, %.3fs after its deadline (ticks every second; the listener stalled maintenance for %.3fs of that time)", l.Key, l.Val, v.r.Op, durStr(v.r.InvT), durStr(v.r.RetT), durStr(v.hi), durStr(l.T), float64(l.T-v.hi)/1e9, float64(stalled(v.lo, l.T))/1e9)})
+		}
+	}
+	// a value that stayed current beyond its deadline must have left by the end of the run
+	// (which lasts 5 s beyond the last deadline); one without a deadline must still be there
+	endT := int64(0)
+	for _, r := range rd.Recs {
+		if r.RetT > endT {
+			endT = r.RetT
+		}
+	}
+	resident := map[int64]bool{}
+	if sn := rd.Snaps["final"]; sn != nil {
+		for _, e := range sn.Resident {
+			resident[e.Value] = true
+		}
+	}
+	for _, v := range order {
+		if v.unknown {
+			continue
+		}
+		_, ok := noted[v.r.Val]
+		horizon := endT // until when the value stayed current
+		if v.nextInvT >= 0 {
+			horizon = v.nextInvT
+		}
+		switch {
+		case v.hasDL && !ok && horizon > v.hi+2500*ms+stalled(v.lo, horizon):
+			lv := levelOfTTL(v.lo - v.r.InvT)
+			vs = append(vs, Violation{fmt.Sprintf("C04/late/store-never,level=%d%s", lv, busy), fmt.Sprintf("key %d value %d (%s at t=%s, deadline <= %s) stayed current until t=%s and was never reclaimed", v.r.Op.Key, v.r.Val, v.r.Op, durStr(v.r.RetT), durStr(v.hi), durStr(horizon))})
+		case !v.hasDL && v.nextInvT < 0 && rd.Snaps["final"] != nil && !resident[v.r.Val] && !ok:
+			vs = append(vs, Violation{"C04/early/store,vanished" + busy, fmt.Sprintf("key %d value %d (%s, no deadline, never deleted, cache never full) is neither resident at the end nor was any removal reported", v.r.Op.Key, v.r.Val, v.r.Op)})
 		}
 	}
 	return vs
